@@ -117,7 +117,39 @@ func (l *layout) toPb() *master_pb.TopologyInfo {
 	return topo
 }
 
+// genDupPair: one rack, a nearly full server F holding two shards of each of k
+// volumes and a roomy server E holding a second copy of F's lowest shard for most
+// of them. Per volume the rack is balanced, the rack totals are not: the rack-total
+// phase has to pick volumes E does not hold at all.
+func genDupPair(rng *rand.Rand) *layout {
+	l := &layout{Coll: map[uint32]string{}}
+	f := &eNode{Dc: "dc1", Rack: "rack1", Id: "10.1.1.1:8080", Hdd: true, Shards: map[uint32]uint32{}}
+	e := &eNode{Dc: "dc1", Rack: "rack1", Id: "10.1.1.2:8080", Hdd: true, Shards: map[uint32]uint32{}}
+	k := 3 + rng.Intn(6)
+	for v := 1; v <= k; v++ {
+		vid := uint32(v)
+		l.Coll[vid] = ""
+		p := rng.Perm(14)[:2]
+		f.Shards[vid] = 1<<uint(p[0]) | 1<<uint(p[1])
+		low := p[0]
+		if p[1] < low {
+			low = p[1]
+		}
+		if rng.Intn(5) != 0 {
+			e.Shards[vid] = 1 << uint(low)
+		}
+	}
+	f.Vols, e.Vols = rng.Intn(3), rng.Intn(3)
+	f.Max = f.Vols + (f.shardCount()+rng.Intn(4)+9)/10
+	e.Max = e.Vols + (e.shardCount()+20+rng.Intn(11)+9)/10
+	l.Nodes = []*eNode{f, e}
+	return l
+}
+
 func genLayout(rng *rand.Rand) *layout {
+	if rng.Intn(10) == 0 {
+		return genDupPair(rng)
+	}
 	l := &layout{Coll: map[uint32]string{}}
 	nRack := 1 + rng.Intn(6)
 	nSrv := 2 + rng.Intn(19)
